@@ -281,7 +281,15 @@ fn exec(r: &Run, rep: &mut Report) -> Option<(Value, String)> {
     if output.status.signal_or_none().is_some() {
         return Some((json!({"kind": "mlar_killed_by_signal"}), format!("mlar {args:?}: {:?}", output.status)));
     }
-    // clause 2: on success, benign members are there with their content
+    // clause 2a: an archive whose members are all benign, extracted into a tree without links, must extract
+    // (a refused or failing member would otherwise silence clause 2b)
+    if code != Some(0) && !r.symlink && !r.filelink && r.names.iter().all(|n| classify(n) == Class::Benign) {
+        return Some((
+            json!({"kind": "extraction_of_benign_members_fails", "form": r.form.split(':').next().unwrap_or("")}),
+            format!("mlar {:?} exited {:?} although every member name is benign; stderr: {}", args, code, String::from_utf8_lossy(&output.stderr).chars().take(300).collect::<String>()),
+        ));
+    }
+    // clause 2b: on success, benign members are there with their content
     if code == Some(0) {
         for n in &selected {
             if classify(n) != Class::Benign {
